@@ -23,23 +23,26 @@ def declare(spec):
 
     # ---- events (ghost evlog: one entry per message actually handed to the PUB socket)
     spec.add(Contract('$PubSocket.send_multipart', params={'self': Ref('PubSocket'), 'parts': VAL},
-                      trusted=True, modifies=[], raises={'ZMQError': []},
-                      note='T-ZMQ: delivers the message or raises ZMQError; the ghost evlog entry is '
-                           'attached at this call by Watcher.notify_event (ghost_at)'))
-    spec.add(Contract('zmq.utils.jsonapi:dumps', params={'o': VAL}, ret=BYTES, trusted=True, modifies=[],
-                      raises={'TypeError': []}, note='T-STDLIB json.dumps: bytes or TypeError'))
+                      trusted=True, modifies=[],
+                      note='T-ZMQ / A-ZMQSEND: send_multipart on an open PUB socket hands the message to '
+                           'zmq and does not raise; the ghost evlog entry is attached at this call by '
+                           'Watcher.notify_event (ghost_at)'))
+    spec.pred('serialisable', [('msg', Dict(STR, VAL))],
+              "forall(STR, lambda k: implies(k in msg, not is_ref(msg[k])))")
+    spec.add(Contract('zmq.utils.jsonapi:dumps', params={'o': Dict(STR, VAL)}, ret=BYTES, trusted=True,
+                      modifies=[], requires=['serialisable(o)'],
+                      note='T-STDLIB json.dumps of a str-keyed dict of JSON scalars/containers: never raises'))
     spec.pred('msg_int', [('msg', Dict(STR, VAL)), ('k', STR)],
               "ite(k in msg and is_int(msg[k]), as_int(msg[k]), -1)", ret=INT)
     spec.add(Contract(
         'circus.watcher:Watcher.notify_event', params={'topic': STR, 'msg': Dict(STR, VAL)},
-        requires=[],
+        requires=['serialisable(msg)'],
         ensures=["implies(not isnull(self.evpub_socket) and not self.evpub_socket.closed, "
                  "length(evlog) == length(old(evlog)) + 1 and last(evlog) == "
                  "pubev(ref_id(self), topic, msg_int(msg, 'process_pid'), msg_int(msg, 'exit_code')))",
                  "forall(INT, lambda i: implies(0 <= i and i < length(old(evlog)), evlog[i] == old(evlog)[i]))",
                  "implies(isnull(self.evpub_socket) or self.evpub_socket.closed, evlog == old(evlog))"],
-        raises={'ZMQError': ['evlog == old(evlog)'], 'TypeError': ['evlog == old(evlog)']},
-        modifies=['evlog'], exc_modifies=[],
+        modifies=['evlog'],
         ghost_at={'send_multipart': ["evlog = evlog + [pubev(ref_id(self), topic, "
                                      "msg_int(msg, 'process_pid'), msg_int(msg, 'exit_code'))]"]},
     ))
@@ -60,3 +63,147 @@ def declare(spec):
         raises={'*': []}, modifies=['self.*'], exc_modifies=['self.*'],
         note='constructor: initialises only the new object (70 lines of option plumbing, not verified); '
              'any exception for ill-typed arguments'))
+
+    # ---- hooks (C14) -------------------------------------------------------------------
+    spec.ghost('hooklog', List(PUBEV))     # one entry per hook CALL: (watcher, hook name, truthy(result))
+    spec.add(Contract('$callable', params={'f': VAL}, ret=VAL, trusted=True,
+                      modifies=['clock', 'K_alive'], ensures=['kstep()', 'clock >= old(clock)'],
+                      raises={'*': ['kstep()', 'clock >= old(clock)']},
+                      note='A-HOOKPURE / A-HOOKRET: a user hook returns any value or raises any Exception, '
+                           'takes time, and does not modify supervisor state'))
+    EVKEEP = ("(length(evlog) >= length(old(evlog)) and forall(INT, lambda i: implies(0 <= i and "
+              "i < length(old(evlog)), evlog[i] == old(evlog)[i])))")
+    HKEEP = ("(length(hooklog) >= length(old(hooklog)) and forall(INT, lambda i: implies(0 <= i and "
+             "i < length(old(hooklog)), hooklog[i] == old(hooklog)[i])))")
+    OPEN = "(not isnull(self.evpub_socket) and not self.evpub_socket.closed)"
+    spec.add(Contract(
+        'circus.watcher:Watcher.call_hook', params={'hook_name': STR, 'kwargs': Dict(STR, VAL)}, ret=VAL,
+        requires=['serialisable(kwargs)'],
+        ensures=[
+            # no hook registered: True, no event, no log entry
+            "implies(not (hook_name in self.hooks), result == val(True) and evlog == old(evlog) and hooklog == old(hooklog))",
+            # hook registered: exactly one hook_success / hook_failure event (when the socket is open)
+            "implies(hook_name in self.hooks, length(hooklog) == length(old(hooklog)) + 1 and "
+            "last(hooklog) == pubev(ref_id(self), hook_name, ite(truthy(result), 1, 0), 0))",
+            "implies(hook_name in self.hooks and %s, length(evlog) == length(old(evlog)) + 1 and "
+            "(ev_topic(last(evlog)) == 'hook_success' or ev_topic(last(evlog)) == 'hook_failure') and "
+            "ev_w(last(evlog)) == ref_id(self))" % OPEN,
+            "implies(hook_name in self.hooks and not %s, evlog == old(evlog))" % OPEN,
+            # an exception counts as false unless the name is in ignore_hook_failure
+            "implies(hook_name in self.hooks and %s and ev_topic(last(evlog)) == 'hook_failure', "
+            "result == val(contains(self.ignore_hook_failure, hook_name)))" % OPEN,
+            EVKEEP, HKEEP, 'kstep()', 'clock >= old(clock)',
+        ],
+        modifies=['evlog', 'hooklog', 'clock', 'K_alive'],
+        ghost_at={'notify_event': ["hooklog = hooklog + [pubev(ref_id(self), hook_name, ite(truthy(result), 1, 0), 0)]"]},
+    ))
+    SIGKEEP = ("(length(siglog) >= length(old(siglog)) and forall(INT, lambda i: implies(0 <= i and "
+               "i < length(old(siglog)), siglog[i] == old(siglog)[i])))")
+    GATE = ("ite('before_signal' in self.hooks, ev_pid(hooklog[length(old(hooklog))]) == 1, True)")
+    spec.pred('wf_procs_pid', [('w', Ref('Watcher'))],
+              "forall(INT, lambda k: implies(k in w.processes, not isnull(w.processes[k]) and w.processes[k].pid == k))")
+    spec.add(Contract(
+        'circus.watcher:Watcher.send_signal', params={'pid': INT, 'signum': INT},
+        requires=['wf_procs_pid(self)'],
+        ensures=[
+            "implies(not (pid in self.processes), siglog == old(siglog) and evlog == old(evlog) and hooklog == old(hooklog))",
+            # at most one signal, to the addressed worker, with the signal that was named
+            "length(siglog) <= length(old(siglog)) + 1",
+            "implies(length(siglog) == length(old(siglog)) + 1, (pid in self.processes) and "
+            "last(siglog) == sigev(pid, signum, sig_t(last(siglog)), 0))",
+            # the before_signal gate, SIGKILL exempt (C14)
+            "implies(pid in self.processes, (length(siglog) == length(old(siglog)) + 1) == (signum == 9 or %s))" % GATE,
+            SIGKEEP, EVKEEP, HKEEP, 'kstep()', 'clock >= old(clock)',
+            "same_field('Watcher.processes', 'Process.stopping', 'Process.klog', 'Process.naps', 'Process.alive_seen')",
+        ],
+        raises={'NoSuchProcess': ['siglog == old(siglog)', 'pid in self.processes', 'kstep()',
+                                  'clock >= old(clock)', EVKEEP, HKEEP,
+                                  'signum == 9 or %s' % GATE]},
+        modifies=['siglog', 'evlog', 'hooklog', 'clock', 'K_alive'],
+    ))
+
+    # ---- termination of one worker (C03) -------------------------------------------------
+    spec.add(Contract('circus.util:tornado_sleep', params={'duration': REAL}, trusted=True,
+                      note='T-TORNADO gen.sleep: handled by the coroutine layer (pending sleep)'))
+    spec.add(Contract('circus.stream.redirector:Redirector.remove_redirections',
+                      params={'process': Ref('Process')}, trusted=True, modifies=[],
+                      note='placeholder until C17 puts Redirector under contract: no effect on the state '
+                           'the lifecycle contracts talk about'))
+    DESC = "ufn('descendant', BOOL, process.pid, sig_pid(siglog[i]))"
+    CONF = ("forall(INT, lambda i: implies(length(old(siglog)) <= i and i < length(siglog), "
+            "sig_num(siglog[i]) == signum and (sig_pid(siglog[i]) == process.pid or %s)))" % DESC)
+    spec.add(Contract(
+        'circus.watcher:Watcher.send_signal_process',
+        params={'process': Ref('Process'), 'signum': INT, 'recursive': BOOL},
+        requires=['not isnull(process)', 'wf_procs_pid(self)'],
+        ensures=[CONF, SIGKEEP, EVKEEP, HKEEP, 'kstep()', 'clock >= old(clock)',
+                 "same_field('Watcher.processes', 'Process.stopping', 'Process.klog', 'Process.naps', 'Process.alive_seen')"],
+        modifies=['siglog', 'evlog', 'hooklog', 'clock', 'K_alive'],
+        loops={0: Loop(invariant=[
+            "forall(INT, lambda i: implies(length(old(siglog)) <= i and i < length(siglog), "
+            "sig_num(siglog[i]) == signum and (sig_pid(siglog[i]) == process.pid or %s)))" % DESC,
+            SIGKEEP, EVKEEP, HKEEP, 'kstep()', 'clock >= old(clock)',
+            "forall(INT, lambda i: implies(0 <= i and i < loop_n, ufn('descendant', BOOL, process.pid, loop_seq[i])))",
+            "same_field('Watcher.processes', 'Process.stopping', 'Process.klog', 'Process.naps', "
+            "'Process.alive_seen', 'Process.pid', 'Watcher.evpub_socket', 'PubSocket.closed', 'Watcher.hooks')",
+        ], fingerprint='for:children')},
+    ))
+    S = "ite(is_none(stop_signal), old(self.stop_signal), as_int(stop_signal))"
+    G = "ite(is_none(graceful_timeout), old(self.graceful_timeout), as_real(graceful_timeout))"
+    N0 = "length(old(process.klog))"
+    spec.add(Contract(
+        'circus.watcher:Watcher.kill_process', kind='coroutine', rely='kill',
+        params={'process': Ref('Process'), 'stop_signal': VAL, 'graceful_timeout': VAL}, ret=BOOL,
+        requires=['not isnull(process)', 'wf_procs_pid(self)',
+                  'is_none(stop_signal) or is_int(stop_signal)',
+                  'is_none(graceful_timeout) or is_num(graceful_timeout)',
+                  'self.graceful_timeout >= 0',
+                  'implies(is_num(graceful_timeout), as_real(graceful_timeout) >= 0)'],
+        yield_guarantee=['wf_procs_pid(self)'],
+        ensures=[
+            # a second termination of the same worker returns at once, without any signal
+            'implies(old(process.stopping), not result)',
+            'implies(not result, process.klog == old(process.klog))',
+            # stop signal first: the configured one or the per-request override
+            'implies(result, length(process.klog) >= %s + 1)' % N0,
+            'implies(result, sig_num(process.klog[%s]) == %s)' % (N0, S),
+            'implies(result, sig_pid(process.klog[%s]) == process.pid)' % N0,
+            'implies(result, sig_mode(process.klog[%s]) == ite(old(self.stop_children), 1, 0))' % N0,
+            # at most one escalation, it is SIGKILL to the worker and all its descendants
+            'implies(result, length(process.klog) <= %s + 2)' % N0,
+            'implies(result and length(process.klog) == %s + 2, sig_num(process.klog[%s + 1]) == 9 and '
+            'sig_pid(process.klog[%s + 1]) == process.pid and sig_mode(process.klog[%s + 1]) == 2)'
+            % (N0, N0, N0, N0),
+            # never earlier than graceful_timeout after the stop signal (ghost clock, A-REAL)
+            'implies(result and length(process.klog) == %s + 2, sig_t(process.klog[%s + 1]) >= '
+            'sig_t(process.klog[%s]) + %s)' % (N0, N0, N0, G),
+            # always within one polling step once the timeout has elapsed
+            'implies(result and length(process.klog) == %s + 2, process.naps - old(process.naps) >= %s and '
+            'process.naps - old(process.naps) < %s + real(1) / 10)' % (N0, G, G),
+            # no SIGKILL <=> the worker was seen dead before the timeout (and a dead pid stays dead)
+            'implies(result and length(process.klog) == %s + 1, not (process.pid in K_alive))' % N0,
+            # never to a worker that exited in time: SIGKILL only after the worker was seen alive once
+            # the whole graceful_timeout had been waited
+            'implies(result and length(process.klog) == %s + 2, process.alive_seen - old(process.naps) >= %s)'
+            % (N0, G),
+            'implies(result, not process.stopping and process.closed)',
+            'forall(INT, lambda i: implies(0 <= i and i < %s, process.klog[i] == old(process.klog)[i]))' % N0,
+        ],
+        modifies=['process.klog', 'process.naps', 'process.alive_seen', 'process.stopping', 'process.closed', '*'],
+        ghost_at={
+            'send_signal_process': ["process.klog = process.klog + [sigev(process.pid, args[1], clock, "
+                                    "ite(kw_recursive, 2, 1))]"],
+            'send_signal': ["process.klog = process.klog + [sigev(args[0], args[1], clock, 0)]"],
+            'is_alive': ["process.alive_seen = ite(call_result, process.naps, process.alive_seen)"],
+            'tornado_sleep': ["process.naps = process.naps + args[0]"],
+        },
+        loops={0: Loop(invariant=[
+            "waited == process.naps - old(process.naps)", "waited >= 0", "process.stopping",
+            "length(process.klog) == %s + 1" % N0,
+            "process.klog[%s] == at('loop0_pre', process.klog[%s])" % (N0, N0),
+            'forall(INT, lambda i: implies(0 <= i and i < %s, process.klog[i] == old(process.klog)[i]))' % N0,
+            "clock >= sig_t(process.klog[%s]) + waited" % N0,
+            "wf_procs_pid(self)", "not old(process.stopping)", "process.pid == old(process.pid)",
+            "waited <= 0 or waited - real(1) / 10 < as_real(graceful_timeout)",
+        ], variant="as_real(graceful_timeout) - waited", fingerprint='while:waited < graceful_timeout')},
+    ))
